@@ -7,7 +7,7 @@
    admissible histories ([history_ok]: >= 2 factors, well-formed keys, erase(id, pf) with the
    inserting key or a non-stored id, strictly increasing id lists for refine). *)
 From Coq Require Import List Arith Bool Sorted Permutation.
-From AIT Require Import C20.Model C20.Spec C20.ProofsLists C20.ProofsApply C20.Proofs C20.ProofsFaster C20.ProofsFilterMap C20.ProofsReconstruct C20.ProofsChecker C20.ProofsReconstruct2.
+From AIT Require Import C20.Model C20.Spec C20.ProofsLists C20.ProofsApply C20.Proofs C20.ProofsFaster C20.ProofsFilterMap C20.ProofsReconstruct C20.ProofsChecker C20.ProofsReconstruct2 C20.ProofsCopy.
 Import ListNotations.
 
 (* --- meaning of the spec's boolean filter --- *)
@@ -254,6 +254,32 @@ Print Assumptions reconstruct_factors_exact.
 Theorem agree_iff_compatible : forall F a b, pf_okb F a = true -> (agree a b <-> compatible a b).
 Proof. intros F a b H. split; [apply (agree_compatible F); auto|apply compatible_agree]. Qed.
 Print Assumptions agree_iff_compatible.
+
+(* --- copies (copy construction, copy assignment, move) are values: the copy represents the same store
+       with the same id counter — which is above every stored id, so an insert into the copy never reuses
+       a stored id — and a history continued on the copy, like one continued on the original, gets the
+       spec's outputs from the spec state reached before the copy. --- *)
+Theorem trie_fork : forall F ops1 ops2, history_ok F ops1 -> hist_okb F (spec_state ops1) ops2 = true ->
+  exists t t2, trie_history true F ops1 = Ok (t, spec_outs ops1) /\
+    trie_run true (trie_copy t) ops2 = Ok (t2, snd (spec_run (spec_state ops1) ops2)) /\
+    (exists t3, trie_run true t ops2 = Ok (t3, snd (spec_run (spec_state ops1) ops2))).
+Proof. exact trie_fork_lemma. Qed.
+Print Assumptions trie_fork.
+
+Theorem ft_fork : forall F ops1 ops2, ft_history_ok F ops1 -> ft_hist_okb F (spec_state ops1) ops2 = true ->
+  exists t outs1, ft_history F ops1 = Ok (t, outs1) /\
+    (exists t2 outs2, ft_run (ft_copy t) ops2 = Ok (t2, outs2) /\ Forall2 out_sim (snd (spec_run (spec_state ops1) ops2)) outs2 /\
+                      FInv2 t2 (fst (spec_run (spec_state ops1) ops2))) /\
+    (exists t3 outs3, ft_run t ops2 = Ok (t3, outs3) /\ Forall2 out_sim (snd (spec_run (spec_state ops1) ops2)) outs3).
+Proof. exact ft_fork_lemma. Qed.
+Print Assumptions ft_fork.
+
+Theorem ft_copy_keeps_invariant : forall t c st, FInv2 t (c, st) ->
+  FInv2 (ft_copy t) (c, st) /\ fcounter (ft_copy t) = c /\ forall e, In e st -> fst e < fcounter (ft_copy t).
+Proof.
+  intros t c st H. destruct (ft_copy_inv t _ H) as [Hc _]. destruct (finv_counter_fresh _ _ _ Hc) as [H1 H2]. auto.
+Qed.
+Print Assumptions ft_copy_keeps_invariant.
 
 (* --- the hypotheses are satisfiable on non-trivial inputs --- *)
 Definition ex_hist : list op :=
